@@ -227,7 +227,7 @@ func c12(p *core.Prog, res *core.Result) {
 	res.Rule("M3", "jump queue: shared locals guarded", 1)
 	res.Rule("M4", "a jump queues only the signals of its own mark", 1)
 	res.Rule("M5", "steps that build travelers from lookup results keep the signal", 4)
-	res.Rule("M6", "the jump queue's intake never waits for its reader (unbounded buffer)", 3)
+	res.Rule("M6", "the jump queue's intake never waits for its reader (unbounded buffer)", 2)
 
 	proc := p.Iface("gdbi", "Processor")
 	if proc == nil {
